@@ -16,14 +16,15 @@ import (
 // one search over initiate / upload-part / complete / abort / put histories.
 
 type mpOp struct {
-	kind string // initiate|part|complete|abort|put
-	k    string
-	meta bool
-	u    int // index into the model's open uploads (initiation order)
-	n    int
-	body string
-	list []model.CPart
-	desc string
+	kind      string // initiate|part|complete|abort|put
+	k         string
+	meta      bool
+	emptyMeta bool // initiate with the metadata header present but empty
+	u         int  // index into the model's open uploads (initiation order)
+	n         int
+	body      string
+	list      []model.CPart
+	desc      string
 }
 
 func (o mpOp) String() string {
@@ -31,6 +32,9 @@ func (o mpOp) String() string {
 	case "initiate":
 		if o.meta {
 			return "initiate " + o.k + " +meta"
+		}
+		if o.emptyMeta {
+			return "initiate " + o.k + " +empty-meta"
 		}
 		return "initiate " + o.k
 	case "part":
@@ -227,6 +231,10 @@ func (s *mpSys) Ops() []engine.Op {
 			ops = append(ops, mpOp{kind: "initiate", k: k})
 		}
 		ops = append(ops, mpOp{kind: "initiate", k: s.u.keys[0], meta: true})
+		if s.m.Objects[s.u.keys[0]] != nil && len(s.m.Uploads) == 0 {
+			// over an existing object that has a value for the header (plain puts send one)
+			ops = append(ops, mpOp{kind: "initiate", k: s.u.keys[0], emptyMeta: true})
+		}
 	}
 	for i, u := range s.m.Uploads {
 		for _, n := range s.u.partNums {
@@ -304,6 +312,10 @@ func (s *mpSys) apply(op engine.Op) (string, *engine.Violation) {
 		if o.meta {
 			hdr = drv.H(mpMetaKey, "mv")
 			meta = map[string]string{mpMetaKey: "mv"}
+		}
+		if o.emptyMeta {
+			hdr = drv.H(mpMetaKey, "")
+			meta = map[string]string{mpMetaKey: ""}
 		}
 		r := s.w.Do(drv.Req{Method: "POST", Path: "/" + s.bucket + "/" + o.k, Query: "uploads", Header: hdr})
 		if r.Status != 200 || r.Panic != "" {
@@ -403,11 +415,11 @@ func (s *mpSys) apply(op engine.Op) (string, *engine.Violation) {
 		}
 		return respSig(r), nil
 	case "put":
-		r := s.w.Do(drv.Req{Method: "PUT", Path: "/" + s.bucket + "/" + o.k, Body: []byte(o.body)})
+		r := s.w.Do(drv.Req{Method: "PUT", Path: "/" + s.bucket + "/" + o.k, Body: []byte(o.body), Header: drv.H(mpMetaKey, "plain")})
 		if r.Status != 200 || r.Panic != "" {
 			return respSig(r), &engine.Violation{Sig: "FOREIGN", Msg: "plain put failed: " + r.Short()}
 		}
-		s.m.Objects[o.k] = &model.Obj{Body: []byte(o.body), Meta: map[string]string{}}
+		s.m.Objects[o.k] = &model.Obj{Body: []byte(o.body), Meta: map[string]string{mpMetaKey: "plain"}}
 		return respSig(r), nil
 	}
 	panic("c06: unknown op")
@@ -535,7 +547,7 @@ func init() {
 func (s *mpSys) renderModel() string {
 	out := ""
 	for i, u := range s.m.Uploads {
-		out += fmt.Sprintf("U%d %s %v:", i, u.Key, len(u.Meta))
+		out += fmt.Sprintf("U%d %s %q:", i, u.Key, drv.MetaString(u.Meta))
 		for _, n := range u.PartNumbers() {
 			out += fmt.Sprintf(" %d=%s", n, u.Parts[n].Body)
 		}
@@ -547,7 +559,7 @@ func (s *mpSys) renderModel() string {
 	}
 	sort.Strings(ks)
 	for _, k := range ks {
-		out += "O " + k + " " + string(s.m.Objects[k].Body) + "\n"
+		out += "O " + k + " " + string(s.m.Objects[k].Body) + " " + drv.MetaString(s.m.Objects[k].Meta) + "\n"
 	}
 	return out + fmt.Sprintf("closed=%d", len(s.m.Closed))
 }
